@@ -299,8 +299,18 @@ def cap_writers(repo, chk):
     for f, n, g in sites:
         from ..match import expected_term
         cap_e = f'{f.params[1]}.combination_number_upper_bound' if len(f.params) > 1 else 'args.combination_number_upper_bound'
-        ok = f.qualname == 'get_combinations_from_columns' and isinstance(n, ast.Assign) and ast.unparse(n.value) == 'MAX_FEATURES_3MR' and isinstance(g, ast.If) \
-            and term_of(f, g.test, inline=False) in (expected_term(f.module, f'{cap_e} > MAX_FEATURES_3MR'), expected_term(f.module, f'{cap_e} >= MAX_FEATURES_3MR'))
+        # the conjuncts in force at the store: tests of the enclosing ifs whose body (not else) holds it
+        conj = []
+        pp = parents(f.node)
+        cur = n
+        while pp.get(cur) is not None:
+            up = pp[cur]
+            if isinstance(up, ast.If) and any(cur is b for b in up.body):
+                t = term_of(f, up.test, inline=True)
+                conj += list(t[1]) if t[0] == 'and' else [t]
+            cur = up
+        clamp_tests = (expected_term(f.module, f'{cap_e} > MAX_FEATURES_3MR'), expected_term(f.module, f'{cap_e} >= MAX_FEATURES_3MR'))
+        ok = f.qualname == 'get_combinations_from_columns' and isinstance(n, ast.Assign) and ast.unparse(n.value) == 'MAX_FEATURES_3MR' and any(c in clamp_tests for c in conj)
         # the same clamp written as min(cap, MAX)
         ok = ok or (f.qualname == 'get_combinations_from_columns' and isinstance(n, ast.Assign) and term_of(f, n.value, inline=False) in (expected_term(f.module, f'min({cap_e}, MAX_FEATURES_3MR)'), expected_term(f.module, f'min(MAX_FEATURES_3MR, {cap_e})')))
         chk.expect(ok, 'C06.3w', 'R2', f.site(n), ast.unparse(n), 'whitelisted: 3MR clamp of the cap to MAX_FEATURES_3MR', f'{f.qualname} overwrites args.combination_number_upper_bound (an object shared by all batches of a run): later batches are reduced by something other than the configured cap')
